@@ -154,9 +154,16 @@ impl ToTokens for Documentation {
     if self.lines.is_empty() {
       return;
     }
-    let doc_lines: Vec<TokenStream> = self
-      .lines
-      .iter()
+    // A stored line can still carry a line break of its own (`from_lines` takes text such as
+    // "200: <response description>" as it comes): every physical line gets its own attribute.
+    let physical_lines = self.lines.iter().flat_map(|line| {
+      if line.contains(['\r', '\n']) {
+        normalize_line_breaks(line).lines().map(String::from).collect::<Vec<_>>()
+      } else {
+        vec![line.clone()]
+      }
+    });
+    let doc_lines: Vec<TokenStream> = physical_lines
       .map(|line| {
         let line = format!(" {line}");
         if self.top_level {
